@@ -27,10 +27,23 @@ structure Opts where
 
 /-! ## the four styles -/
 
-def bsChar (c : Char) : Str := if needsEscaping c then ['\\', c] else [c]
+/-- `is_special_by_position`: a `~` at the start of the word or right after `:` / `=`, a `#` at the
+start of the word -/
+def isSpecialByPos (prev : Option Char) (c : Char) : Bool :=
+  (c == '~' && (prev == none || prev == some ':' || prev == some '=')) || (c == '#' && prev == none)
+
+/-- `contains_char_special_by_position` (with the previous character threaded) -/
+def hasPosSpecial : Option Char → Str → Bool
+  | _, [] => false
+  | prev, c :: cs => isSpecialByPos prev c || hasPosSpecial (some c) cs
+
+def bsGo : Option Char → Str → Str
+  | _, [] => []
+  | prev, c :: cs =>
+    (if needsEscaping c || isSpecialByPos prev c then ['\\', c] else [c]) ++ bsGo (some c) cs
 
 /-- `backslash_escape` -/
-def backslashEscape (s : Str) : Str := if s.isEmpty then ['\'', '\''] else s.flatMap bsChar
+def backslashEscape (s : Str) : Str := if s.isEmpty then ['\'', '\''] else bsGo none s
 
 /-- `single_quote`, one character at a time: `inq` = a `'…` run is open. (`split('\'')` formulation:
 every non-empty part is wrapped in quotes, parts are joined by `\'`.) -/
@@ -61,7 +74,7 @@ def ansiCQuote (s : Str) : Str := '$' :: '\'' :: (s.flatMap ansiChar ++ ['\''])
 /-- `escape::quote` -/
 def quote (o : Opts) (s : Str) : Str :=
   if s.any (fun c => needsAnsiC c && (!o.avoidNl || c != '\n')) then ansiCQuote s
-  else if !(o.always || s.isEmpty || s.any needsEscaping) then s
+  else if !(o.always || s.isEmpty || s.any needsEscaping || hasPosSpecial none s) then s
   else match o.mode with
     | .backslash => backslashEscape s
     | .single => singleQuote s
@@ -87,17 +100,23 @@ def attrStr (attrs : Str) : Str := if attrs.isEmpty then ['-'] else attrs
 def declareP (attrs name v : Str) : Str :=
   "declare -".toList ++ attrStr attrs ++ [' '] ++ name ++ ['='] ++ declValue v
 
-/-- `${name@A}` for a scalar: the attributes are not printed (expansion.rs, `ShellValue::String` arm) -/
-def atA (_attrs name v : Str) : Str := name ++ ['='] ++ forceQuote .single v
+/-- `${name@A}` for a scalar: an assignment, or a `declare` command when there are attributes -/
+def atA (attrs name v : Str) : Str :=
+  (if attrs.isEmpty then [] else "declare -".toList ++ attrs ++ [' ']) ++ name ++ ['='] ++ forceQuote .single v
 
 /-- the line `set` prints for a scalar; xtrace of an assignment -/
 def setLine (name v : Str) : Str := name ++ ['='] ++ traceArg v
 
-/-- `export -p`: the value between double quotes, unescaped (export.rs) -/
-def exportP (name v : Str) : Str := "declare -x ".toList ++ name ++ ['=', '"'] ++ v ++ ['"']
+/-- `export -p`: the value quoted as `declare -p` does (export.rs) -/
+def exportP (name v : Str) : Str := "declare -x ".toList ++ name ++ ['='] ++ declValue v
 
-/-- `alias`: the body between single quotes, unescaped (alias.rs) -/
-def aliasP (name v : Str) : Str := "alias ".toList ++ name ++ ['=', '\''] ++ v ++ ['\'']
+/-- `single_quoted` of alias.rs: one pair of quotes, every `'` inside written `'\''` -/
+def sqBash (v : Str) : Str :=
+  if v = ['\''] then ['\\', '\'']
+  else '\'' :: (v.flatMap (fun c => if c = '\'' then ['\'', '\\', '\'', '\''] else [c]) ++ ['\''])
+
+/-- `alias` -/
+def aliasP (name v : Str) : Str := "alias ".toList ++ name ++ ['='] ++ sqBash v
 
 /-- `trap -p`: the command between single quotes, unescaped (trap.rs) -/
 def trapP (v sig : Str) : Str := "trap -- '".toList ++ v ++ ['\'', ' '] ++ sig
